@@ -102,6 +102,11 @@ NASTY = ["", " ", "12", "007", "-3", "1.5", "1e5", "True", "None", "'q'", '"dq"'
          "\n", "\r", "x\ny", "line1\r\nline2", "﻿bom", "tab\there", "ünï", "ZÜRICH", "日本語", "🙂🙂", "a" * 300]
 HEADERS_ID = ["name", "City", "ZIP", "col_3", "Street", "number", "extra1", "Extra2", "x", "Y", "long_column_name_9"]
 HEADERS_WILD = ["first name", "Ünï", "a-b", "1st", "日本", "q?", "with,comma", 'with"quote', " lead", "trail "]
+# hostile header cells: embedded line breaks (LF, CRLF, lone CR), separators, quotes, blanks, a BOM character
+# in the middle, an empty name, emoji — what a spreadsheet export can contain
+HEADERS_HOSTILE = ["Street\nAddress", "Line\r\nBreak", "lone\rcr", "two\n\nbreaks\n", "\nleading break", "a,b,c",
+                   '"quoted"', 'say ""hi""', "  two lead", "trail  ", "tab\there", "ÜNÏ code", "emoji🙂", "mid\ufeffbom", "",
+                   "x\ny,\"z\"\r\n", "${{formula}}", "#hash", "semi;colon"]
 
 
 def gen_cell(rng, safe):
@@ -129,15 +134,37 @@ def gen_dataset(rng, safe, n=None, kind=None):
     ncols = rng.choice([1, 2, 2, 3, 3, 4, 6])
     pool = list(HEADERS_ID)
     if not safe and kind == "csv":
-        pool += HEADERS_WILD
+        pool += HEADERS_WILD + HEADERS_HOSTILE
     rng.shuffle(pool)
     header, seen = [], set()
     for h in pool:
-        if h.lower().strip() not in seen:
+        if h.lower() not in seen:
             header.append(h)
-            seen.add(h.lower().strip())
+            seen.add(h.lower())
         if len(header) == ncols:
             break
+    dup_header = False
+    if kind == "csv":
+        hostile_p = 0.45
+        if safe:
+            # recipes address columns as `row.<identifier>`: identifier columns stay, hostile columns are
+            # extra columns of the file that no formula mentions (never in position 0)
+            if rng.random() < hostile_p:
+                for h in rng.sample(HEADERS_HOSTILE, rng.choice([1, 1, 2, 3])):
+                    header.insert(rng.randint(1, len(header)), h)
+        else:
+            if rng.random() < hostile_p and not any(h in HEADERS_HOSTILE for h in header):
+                for h in rng.sample(HEADERS_HOSTILE, rng.choice([1, 1, 2])):
+                    if h.lower() not in {x.lower() for x in header}:
+                        header.insert(rng.randint(1, len(header)), h)
+            if len(header) >= 2 and rng.random() < 0.12:
+                # duplicate header names (exact / differing in case only): accepted by the code, the LAST such
+                # column wins (csv.DictReader + CaseInsensitiveDict); never the identifying column 0
+                src_h = rng.choice(header[1:])
+                dup = src_h if rng.random() < 0.5 else (src_h.upper() if src_h.upper() != src_h else src_h.lower())
+                header.insert(rng.randint(1, len(header)), dup)
+                dup_header = True
+        ncols = len(header)
     types = ["text"] * ncols
     if kind == "sql":
         types = [rng.choice(["text", "text", "int"]) for _ in range(ncols)]
@@ -164,6 +191,10 @@ def gen_dataset(rng, safe, n=None, kind=None):
             eol=rng.choice(["\r\n", "\n"]),
             final_eol=rng.random() < 0.85,
         )
+        if ds["final_eol"] and rng.random() < 0.25:
+            ds["trailing_blank"] = rng.choice([1, 2, 3])  # blank lines after the last record
+        if dup_header:
+            ds["dup_header"] = True
     else:
         ds.update(types=types, table=rng.choice(["t", "addresses", "Data_1"]), second_table=rng.random() < 0.3,
                   name_table=rng.random() < 0.5)
@@ -188,11 +219,19 @@ def materialize(ds, folder, stem="data"):
         text = buf.getvalue()
         if not ds.get("final_eol", True) and text.endswith(ds.get("eol", "\r\n")) and ds["rows"]:
             text = text[: -len(ds.get("eol", "\r\n"))]
+        elif ds.get("trailing_blank"):
+            text += eol * ds["trailing_blank"]
         data = text.encode("utf-8")
         if ds.get("bom"):
             data = b"\xef\xbb\xbf" + data
         with open(path, "wb") as f:
             f.write(data)
+        # the file says what the generator meant: an independent csv.reader (newline="") must read back
+        # exactly the header and the records (a difference is a bug of this harness, not of Snowfakery)
+        with open(path, newline="", encoding="utf-8-sig") as f:
+            back = [r for r in csv.reader(f) if r]
+        if back != [list(ds["header"])] + [[str(c) for c in r] for r in ds["rows"]]:
+            raise AssertionError(f"harness: generated CSV does not read back as intended: {back[:2]!r}")
         return path, {}
     path = os.path.join(folder, stem + ".db")
     con = sqlite3.connect(path)
@@ -213,7 +252,15 @@ def materialize(ds, folder, stem="data"):
 
 
 def records_of(ds):
-    return [dict(zip(ds["header"], row)) for row in ds["rows"]]
+    """What a record looks like as a mapping: column names that are equal up to case denote ONE key
+    (csv.DictReader + CaseInsensitiveDict): the last such column gives the value and the spelling."""
+    out = []
+    for row in ds["rows"]:
+        store = {}
+        for h, v in zip(ds["header"], row):
+            store[h.lower()] = (h, v)
+        out.append({h: v for h, v in store.values()})
+    return out
 
 
 # ----------------------------------------------------------------------------- instrumentation
@@ -544,6 +591,9 @@ def run_iter_case(case, folder):
                         outs.append(["value", {k: r.result[k] for k in r.result}])
                     except StopIteration:
                         outs.append(["stop"])
+                    except Exception as e:  # noqa: a well-formed file must not make next() fail
+                        outs.append(["exc", f"{type(e).__name__}: {str(e)[:160]}"])
+                        break
             finally:
                 it.close()
     return {"outs": outs, "cls": type(it).__name__, "passes": passes_by_iterator(log)}
@@ -556,6 +606,10 @@ def oracle_iter(rep, case, real):
     outs = real["outs"]
     repeat = True if case["repeat"] is None else case["repeat"]
     for k, o in enumerate(outs):
+        if o[0] == "exc":
+            rep.violation("C17:unexpected-error", f"next() number {k} over a well-formed dataset of {n} records raised {o[1][:100]}",
+                          case, "a record" if n and (repeat or k < n) else ["stop"], o)
+            return
         if n == 0 or (not repeat and k >= n):
             if o != ["stop"]:
                 rep.violation("C17:exhaustion-not-error",
@@ -1290,6 +1344,21 @@ def check_cases(cases, rep, with_model=True):
             rep.count("csv:bom")
         if case["ds"].get("quote_all"):
             rep.count("csv:quote_all")
+        hdr = case["ds"]["header"]
+        if any("\n" in h or "\r" in h for h in hdr):
+            rep.count("csv:header-with-line-break")
+        if any(h in HEADERS_HOSTILE for h in hdr):
+            rep.count("csv:hostile-header-cell")
+        if case["ds"].get("dup_header"):
+            rep.count("csv:duplicate-header-name")
+        if "" in hdr:
+            rep.count("csv:empty-header-name")
+        if case["ds"].get("trailing_blank"):
+            rep.count("csv:blank-lines-at-end")
+        if case["ds"].get("final_eol") is False:
+            rep.count("csv:no-final-newline")
+        if case["ds"].get("eol") == "\r\n":
+            rep.count("csv:crlf")
         if any(isinstance(c, str) and ("\n" in c or "\r" in c) for r in case["ds"]["rows"] for c in r):
             rep.count("csv/sql:multiline-cell")
         if any(isinstance(c, str) and any(ord(ch) > 127 for ch in c) for r in case["ds"]["rows"] for c in r):
@@ -1346,7 +1415,8 @@ def check_cases(cases, rep, with_model=True):
 
 
 def pick_cols(rng, ds):
-    h = ds["header"]
+    # only columns a formula can name (`row.<identifier>`); hostile header cells are extra columns of the file
+    h = [ds["header"][0]] + [x for x in ds["header"][1:] if x.isascii() and x.isidentifier()]
     k = rng.randint(1, len(h))
     cols = [h[0]] + rng.sample(h[1:], k - 1)
     # recipes may spell a column in another case (CaseInsensitiveDict)
@@ -1365,7 +1435,8 @@ def respell(rng, col):
 def gen_count(rng, n):
     """consumer counts biased to 0, 1, n-1, n, n+1, multiples of n"""
     base = max(n, 1)
-    return rng.choice([1, 2, base - 1 or 1, base, base + 1, 2 * base, 2 * base + 1, 3 * base, rng.randint(1, 25)])
+    return rng.choice([1, 2, base - 1 or 1, base, base + 1, 2 * base, 2 * base + 1, 3 * base, 3 * base + 1, 4 * base + 1,
+                       5 * base + 2, rng.randint(1, 25)])
 
 
 def gen_iter_case(rng):
@@ -1422,7 +1493,7 @@ def gen_update_case(rng):
         for row in ds["rows"]:
             for i, c in enumerate(row):
                 row[i] = c.encode("ascii", "replace").decode().replace("\r", " ")
-    others = [h for h in ds["header"] if h not in cols]
+    others = [h for h in ds["header"] if h not in cols and h.isascii() and h.isidentifier()]
     return {"kind": "update", "ds": ds, "dialect": rng.choice([2, 3]), "reps": rng.choice([None, None, 1, 2, 3]) if out == "capture" else None,
             "cols": cols, "passthrough": rng.sample(others, rng.randint(0, len(others))) if out == "capture" else [],
             "as_path": rng.random() < 0.6, "output": out, "update_key": None, "seed": rng.randrange(2**32)}
